@@ -133,10 +133,12 @@ Definition spec_hs_with (e : option key) (obs : list Z) : bool :=
 Definition spec_handshake (ch : N) (t : ttype) (r : remote) (obs : list Z) : bool :=
   spec_hs_with (entitled ch t r) obs.
 
-(* invitations: judged operation by operation on the implementation's answers;
-   seen = invitations created or accepted so far (according to those answers) *)
+(* invitations: judged operation by operation on the implementation's answers against a reference
+   state: the set of PENDING invitations (created / accepted and not yet consumed, according to those
+   answers).  Single use = a consumption is granted only for a pending invitation and ends it. *)
 Definition mem_n (x : N) (l : list N) : bool := existsb (N.eqb x) l.
-Definition op_ok (app : N) (seen : list N) (op : pmop) (a b : Z) : bool :=
+Definition drop_n (x : N) (l : list N) : list N := filter (fun y => negb (N.eqb y x)) l.
+Definition op_ok (app : N) (pending : list N) (op : pmop) (a b : Z) : bool :=
   match op with
   | OCreate => true
   | OAccept bs =>
@@ -144,43 +146,36 @@ Definition op_ok (app : N) (seen : list N) (op : pmop) (a b : Z) : bool :=
       if Z.eqb a 1 then match bs with InviteFor _ app' _ => N.eqb app' app | Garbage => false end else true
   | OLookup tr k =>
       (if Z.eqb a 1 then Z.eqb b (zn k) else true) &&                       (* an allowed-peer entry only for the claimed key *)
-      match tr with RInv inv => if mem_n inv seen then true else Z.eqb a 0 | _ => true end
+      match tr with RInv inv => if mem_n inv pending then true else Z.eqb a 0 | _ => true end   (* not pending: unknown *)
   | OConsume tr p =>
-      match tr with RInv inv => if mem_n inv seen then true else Z.eqb a 0 && Z.eqb b 0 | _ => true end
+      match tr with RInv inv => if mem_n inv pending then true else Z.eqb a 0 && Z.eqb b 0 | _ => true end
   end.
-Definition seen_after (seen : list N) (op : pmop) (a b : Z) : list N :=
+Definition pending_after (pending : list N) (op : pmop) (a b : Z) : list N :=
   match op with
-  | OCreate => Z.to_N b :: seen
-  | OAccept (InviteFor inv _ _) => if Z.eqb a 1 then inv :: seen else seen
-  | _ => seen
+  | OCreate => Z.to_N b :: pending
+  | OAccept (InviteFor inv _ _) => if Z.eqb a 1 then inv :: pending else pending
+  | OConsume (RInv inv) _ => if Z.eqb b 1 then drop_n inv pending else pending
+  | _ => pending
   end.
-Fixpoint spec_ops (app : N) (seen : list N) (ops : list pmop) (obs : list Z) : bool :=
+Fixpoint spec_ops (app : N) (pending : list N) (ops : list pmop) (obs : list Z) : bool :=
   match ops, obs with
   | [], [] => true
-  | op :: r, a :: b :: obs' => op_ok app seen op a b && spec_ops app (seen_after seen op a b) r obs'
+  | op :: r, a :: b :: obs' => op_ok app pending op a b && spec_ops app (pending_after pending op a b) r obs'
   | _, _ => false
   end.
-(* successful consumptions of invitation inv (owned: answer 2, received: answer 3) *)
-Fixpoint successes (inv : N) (ops : list pmop) (obs : list Z) : nat :=
-  match ops, obs with
-  | op :: r, a :: b :: obs' =>
-      ((match op with
-        | OConsume (RInv i) _ => if N.eqb i inv && (Z.eqb a 2 || Z.eqb a 3) && Z.eqb b 1 then 1 else 0
-        | _ => 0
-        end) + successes inv r obs')%nat
-  | _, _ => O
-  end.
-Fixpoint attempts (inv : N) (ops : list pmop) : nat :=
+Definition spec_invites (app : N) (ops : list pmop) (obs : list Z) : bool := spec_ops app [] ops obs.
+
+(* scenario encoding: created invitations are named by their rank 1..n; an invitation received from
+   somebody else never has the id of one this instance will create later (ids are fresh random uids) *)
+Fixpoint n_creates (ops : list pmop) : N :=
+  match ops with [] => 0%N | OCreate :: r => N.succ (n_creates r) | _ :: r => n_creates r end.
+Fixpoint ops_ok (next total : N) (ops : list pmop) : bool :=
   match ops with
-  | [] => O
-  | OConsume (RInv i) _ :: r => ((if N.eqb i inv then 1 else 0) + attempts inv r)%nat
-  | _ :: r => attempts inv r
+  | [] => true
+  | OCreate :: r => ops_ok (N.succ next) total r
+  | OAccept (InviteFor inv _ _) :: r => (N.ltb inv next || N.ltb total inv) && ops_ok next total r
+  | _ :: r => ops_ok next total r
   end.
-Definition invs_of (ops : list pmop) : list N :=
-  flat_map (fun op => match op with OConsume (RInv i) _ => [i] | _ => [] end) ops.
-Definition spec_invites (app : N) (ops : list pmop) (obs : list Z) : bool :=
-  spec_ops app [] ops obs &&
-  forallb (fun inv => Nat.leb (successes inv ops obs) 1) (invs_of ops).      (* single use *)
 
 (* tokens: the same on both sides, different for different pairs of public keys *)
 Definition pair_of (secs : list secret) (p : nat * nat) : option (N * N) :=
@@ -217,29 +212,13 @@ Definition spec_C19 (c : c19case) (obs : list Z) : bool :=
   | CTokens secs probes => spec_tokens secs probes obs
   end.
 
-(* registrations of invitation inv as a RECEIVED invitation: accept_invite calls that name this application *)
-Fixpoint accepts (app inv : N) (ops : list pmop) : nat :=
-  match ops with
-  | [] => O
-  | OAccept (InviteFor i a _) :: r => ((if N.eqb i inv && N.eqb a app then 1 else 0) + accepts app inv r)%nat
-  | _ :: r => accepts app inv r
-  end.
-Fixpoint n_creates (ops : list pmop) : N :=
-  match ops with [] => 0%N | OCreate :: r => N.succ (n_creates r) | _ :: r => n_creates r end.
-(* how many times invitation inv gets registered in the table by this history (created ones: ranks 1..n) *)
-Definition registrations (app inv : N) (ops : list pmop) : nat :=
-  ((if (N.leb 1 inv && N.leb inv (n_creates ops))%bool then 1 else 0) + accepts app inv ops)%nat.
-
 (* known-finding classes (known_findings.d/C19.json):
    1  (fixed 2163820) an invitation presented a second time was accepted again
    2  two different secrets with the same x25519 public key (they differ only in bits the scalar
       clamping ignores) ask for each other's token
-   3  the same invitation is registered more than once (accept_invite called twice with it, or with
-      an invitation this instance created itself) and then presented more than once *)
+   3  (fixed 1e2cdf6) an invitation accepted twice was registered twice and consumed twice *)
 Definition known_C19 (c : c19case) : list Z :=
   match c with
-  | CInvites app _ _ ops =>
-      if existsb (fun inv => Nat.ltb 1 (registrations app inv ops) && Nat.ltb 1 (attempts inv ops)) (invs_of ops) then [3] else []
   | CTokens secs probes =>
       if existsb (fun p => match nth_error secs (fst p), nth_error secs (snd p) with
                            | Some a, Some b => N.eqb (s_pub a) (s_pub b) && negb (N.eqb (s_bytes a) (s_bytes b))
